@@ -128,7 +128,7 @@ func RecordTraces(cfg TraceCfg, seed int64, n int, outFile string) (int, error) 
 						}
 					}
 					// only the file the sink currently writes to may be renamed: it exists once the sink has opened it
-					if active != "" && os.Rename(filepath.Join(dir, active), filepath.Join(dir, fmt.Sprintf("ext-%d.dat", ext))) == nil {
+					if active != "" && os.Rename(filepath.Join(dir, active), filepath.Join(dir, ExtName(ext))) == nil {
 						ext++
 						logEv(tev{"e": "extrename"})
 					}
